@@ -65,7 +65,7 @@ TStep ==
        sane  == S_FieldShapes(post) /\ S_MeshNormal(post) /\ \A v \in DOMAIN rpost : rpost[v] \in DOMAIN post
    IN
    /\ (IF inm THEN TRUE ELSE PrintT(<<"OUTSIDE", Traces[tid].id, l + 1, c0.op>>))     \* calls the model says nothing about are counted
-   /\ Verd(inm => (exp.outcome = Ev.outcome), IF ok THEN "DF_Rejects" ELSE "DF_Accepts")
+   /\ Verd(inm => (exp.outcome = Ev.outcome), IF c0.op \in QueryOps THEN "DF_Query" ELSE IF ok THEN "DF_Rejects" ELSE "DF_Accepts")
    /\ Verd(~ok => (Adopt(post, [heap |-> heap], TRUE) = heap /\ rpost = roots), "DF_RejectUnchanged")
    (* the library may share LESS than the model assumes (a result with its own mesh / region object): no property forbids  *)
    (* that - it is counted, the observed graph adopted.  Any other difference of the object graph is a verdict.           *)
